@@ -245,6 +245,7 @@ type vfMSvc struct {
 	Opt        vfOpts
 	Active     []string
 	Rollout    []string // nil = no rollout targets
+	RolloutOpt vfOpts   // the options in force when the rollout targets were deployed
 	HasSplit   bool
 	Pct        int
 	Allow      []string
@@ -405,6 +406,7 @@ func (m *vfModel) apply(c vfCmd) []string {
 			}
 		}
 		s.Rollout = append([]string{}, c.Targets...)
+		s.RolloutOpt = s.Opt
 		return []string{"ok"}
 	case "rollout-set":
 		if s == nil {
@@ -423,6 +425,25 @@ func (m *vfModel) apply(c vfCmd) []string {
 		return []string{"ok"}
 	}
 	panic("unknown op " + c.Op)
+}
+
+// targetLevel: the part of the options that lives in each target (set when the target is created).
+func (o vfOpts) targetLevel() vfOpts {
+	return vfOpts{HealthPath: o.HealthPath, IntervalMs: o.IntervalMs, ProbeTimeoutMs: o.ProbeTimeoutMs, RespTimeoutMs: o.RespTimeoutMs,
+		BufReq: o.BufReq, BufResp: o.BufResp, MaxMem: o.MaxMem, MaxReq: o.MaxReq, MaxResp: o.MaxResp, Forward: o.Forward, LogReq: o.LogReq, LogResp: o.LogResp}
+}
+
+// staleRolloutOptions: services whose rollout targets were created under other target-level options than the
+// service has now (a redeploy changed them): the running proxy keeps the old ones in those targets.
+func (m *vfModel) staleRolloutOptions() []string {
+	var out []string
+	for _, n := range vfSortedKeys(m.Svcs) {
+		s := m.Svcs[n]
+		if s.Rollout != nil && !reflect.DeepEqual(s.RolloutOpt.targetLevel(), s.Opt.targetLevel()) {
+			out = append(out, n)
+		}
+	}
+	return out
 }
 
 // effTLS: the TLS settings in force for a service: its own if it serves the root path, else those of
